@@ -145,6 +145,8 @@ func (a *c12Anchors) needsEvents(p *walk.Path, at int, sess ssa.Value) []needEv 
 }
 
 func runC12(c *Ctx) {
+	c.R.Rule("RS-no-request-time-state", "request handling writes no state that outlives the request (package-level variables, objects built at start-up, constructor variables captured by handlers) declared in the packages implementing this property", 1)
+	runStateless(c, "RS-no-request-time-state", "pkg/middleware.storedSessionLoader", "providers", "pkg/sessions")
 	r := c.R
 	r.Rule("R1-single-refresh-site", "sessionRefresher is called only in refreshSession, called only from refreshSessionIfNeeded", 3)
 	r.Rule("R2-protocol-order", "refreshSession reached only after lock obtained -> reload ok -> session overwritten -> second needsRefresh true", 1)
